@@ -4,3 +4,20 @@ pub use crate::solver::core::cones::*;
 pub use crate::solver::core::ScalingStrategy;
 pub use crate::solver::implementations::default::verif_shift_to_cone_interior;
 pub use crate::solver::CoreSettings;
+
+use crate::algebra::MatrixShape;
+fn shape(transpose: bool) -> MatrixShape {
+    if transpose {
+        MatrixShape::T
+    } else {
+        MatrixShape::N
+    }
+}
+/// `cone.mul_W(shape, y, x, a, b)` with the crate-private shape flag given as a bool
+pub fn mul_W<C: SymmetricCone<f64>>(c: &mut C, transpose: bool, y: &mut [f64], x: &[f64], a: f64, b: f64) {
+    c.mul_W(shape(transpose), y, x, a, b)
+}
+/// `cone.mul_Winv(shape, y, x, a, b)` with the crate-private shape flag given as a bool
+pub fn mul_Winv<C: SymmetricCone<f64>>(c: &mut C, transpose: bool, y: &mut [f64], x: &[f64], a: f64, b: f64) {
+    c.mul_Winv(shape(transpose), y, x, a, b)
+}
